@@ -238,6 +238,10 @@ def run(chk, repo):
     chk.clauses.append('C02.o (shared with C03.i) PVGNode.copy() gives the copy its own containers (variants, selenocysteines, edge sets): merged nodes built from copies of one node do not see each other\'s appended Sec positions')
     copy_own_containers(chk, repo, 'C02.o', ['svgraph.PVGNode:PVGNode'], floor=1)
     over_limit_routes(chk, repo, 'C02.p')
+    from rules.shared import readonly_inputs
+    chk.clauses.append('C02.q (R-EFFECT) joining the nodes of a miscleaved series only READS the nodes: no local that is an alias of a node\'s own list (selenocysteines, variants) is extended in place - sibling series share the leading node')
+    readonly_inputs(chk, repo, 'C02.q', ['svgraph.VariantPeptideDict:MiscleavedNodes.join_miscleaved_peptides'], 'joining a miscleaved series leaves its nodes unchanged', include_self=True)
+    append_right_flags(chk, repo, 'C02.r')
 
 
 def retry_effects(chk, repo, rid):
@@ -475,3 +479,25 @@ def over_limit_routes(chk, repo, rid):
             ok = any(isinstance(c, ast.Call) and call_name(c) in ('add', 'update') and unparse(c.func.value) == 'trash' for s_ in blk for c in ast.walk(s_))
     chk.ob(rid, 'the over-limit branch of merge_nodes_routes puts the edges of the route into the trash before skipping it', m.where, bool(sites) and ok,
            'the over-limit route is skipped without detaching its edges', key=m.qual + '::over-limit-detach', fn=m.qual)
+
+
+def append_right_flags(chk, repo, rid):
+    """R-EFFECT (must-assign): PVGNode.append_right(other) makes `other` the new C-terminus of the node: the three attributes that
+    describe the C-terminal end (cpop_collapsed, truncated, right_cleavage_pattern_start) are taken over from `other` on EVERY path -
+    also when `other` is an empty terminal node flagged `truncated` (the open end of an mRNA_end_NF transcript)."""
+    from sa.cfg import CFG
+    chk.rule(rid, 'R-EFFECT: append_right takes the C-terminal state (cpop_collapsed, truncated, right cleavage pattern) from the appended node on every path', 3)
+    chk.clauses.append('C02.r PVGNode.append_right copies cpop_collapsed / truncated / right_cleavage_pattern_start from the appended node unconditionally: a merged node keeps the truncated flag of an empty terminal node')
+    f = repo.func('svgraph.PVGNode:PVGNode.append_right')
+    chk.uses(f)
+    other = [a.arg for a in f.node.args.args if a.arg != 'self']
+    o = other[0] if other else 'other'
+    cfg = CFG(f.node)
+    exits = [n.id for n in cfg.nodes if n.kind == 'stmt' and isinstance(n.ast, ast.Return)] + [cfg.exit]
+    for attr in ('cpop_collapsed', 'truncated', 'right_cleavage_pattern_start'):
+        sites = [cfg.node_for(st) for st in ast.walk(f.node) if isinstance(st, ast.Assign) and any(unparse(t) == f"self.{attr}" for t in st.targets)
+                 and (unparse(st.value) == f"{o}.{attr}" or (attr == 'right_cleavage_pattern_start' and f"{o}.{attr}" in unparse(st.value)))]
+        ok = bool(sites) and any(cfg.dominates(s_, cfg.exit) for s_ in sites)
+        chk.ob(rid, f"self.{attr} = {o}.{attr} on every path", f.where, ok,
+               f"append_right does not take `{attr}` from the appended node on every path: a node merged with an empty / special terminal node keeps its own C-terminal state "
+               "(an unfinished 3' end is reported as a peptide)", key=f"{f.qual}::{attr}", fn=f.qual)
